@@ -40,6 +40,7 @@ Definition split_args (s:str) : list str := map (fun a => [a]) s.
 Record ref := {
   r_ctx : atom;                 (* JoinAppName(typeRef.Context.Appname); eps when absent *)
   r_app : option atom;          (* Some (JoinAppName ref.Appname) iff ref.Appname.Part != nil *)
+  r_parts : list str;           (* ref.Appname.Part, element by element (printed by DrawRelation for a short path) *)
   r_path : list str             (* ref.Path *)
 }.
 (* the argument of getNames: element of a collection, or a reference field itself *)
@@ -157,7 +158,11 @@ Definition draw_rel_field (sh:shape) (tm:list entity) (eapp:atom) (enc:nat) (s:s
           let '(sy, tgt) := uvar (syms s) tparts in
           Ok ({| syms := sy; rel := bump (sh_rel_count_new sh) (sh_rel_count_again sh) (rel s) (enc, tgt) CBlank |},
               [IField (fst f) (LFK (p0 ++ p1))])
-      | _ => Panic 1             (* Path[0] / Path[1] : index out of range *)
+      | short =>
+          if sh_rel_guards_short_path sh
+          then (* len(Path) < 2: "+ f : **<Appname.Part and Path joined by '.'>**", no relation *)
+               Ok (s, [IField (fst f) (LRefd (join (r_parts r ++ short)))])
+          else Panic 1           (* Path[0] / Path[1] : index out of range *)
       end
   | FPrim p => Ok (s, [IField (fst f) (LPrim p)])
   | _ => Ok (s, [IField (fst f) (LPrim 0)])      (* strings.ToLower(NO_Primitive.String()) *)
@@ -303,6 +308,16 @@ Definition kind_matches (k:dkind) (d:tdef) : bool :=
   | _, _ => false
   end.
 
+(* the per-application view keeps an entity iff this holds (filt = Some app : dataParam.Epname, app = JoinAppName(dataParam.App.Name)) *)
+Definition in_view (vt:viewtest) (filt:option atom) (e:entity) : bool :=
+  match filt with
+  | None => true
+  | Some a => match vt with
+              | ViewAppEq => Pos.eqb (e_app e) a      (* strings.Split(entityName, ".")[0] == appName *)
+              | UnknownView => true
+              end
+  end.
+
 (* one entity through the if / else-if chain (branches in the order of the source) *)
 Definition draw_entity (sh:shape) (tm:list entity) (ign:list str) (s:st) (isrel:bool) (e:entity)
   : outcome (st * bool * list item) :=
@@ -323,8 +338,7 @@ Fixpoint draw_entities (sh:shape) (filt:option atom) (tm:list entity) (ign:list 
   match es with
   | [] => Ok (s, isrel, [])
   | e :: es' =>
-      let skip := match filt with Some a => negb (Pos.eqb (e_app e) a) | None => false end in
-      if skip then draw_entities sh filt tm ign s isrel es'
+      if negb (in_view (sh_view sh) filt e) then draw_entities sh filt tm ign s isrel es'
       else match draw_entity sh tm ign s isrel e with
            | Panic n => Panic n
            | Ok (s1, r1, o1) =>
